@@ -306,18 +306,12 @@ func (s *redisServer) execSet(w *bufio.Writer, args [][]byte) error {
 				return s.respondError(w, "invalid expire time in set")
 			}
 			switch opt {
-			case "EX":
-				now := time.Now()
-				expireAt = uint64(now.Add(time.Duration(num) * time.Second).Unix())
-				if expireAt <= uint64(now.Unix()) {
-					expireAt = uint64(now.Add(time.Second).Unix())
+			case "EX", "PX":
+				at, ok := relativeExpireAt(time.Now().UnixMilli(), num, opt == "EX")
+				if !ok {
+					return s.respondError(w, "invalid expire time in set")
 				}
-			case "PX":
-				now := time.Now()
-				expireAt = uint64(now.Add(time.Duration(num) * time.Millisecond).Unix())
-				if expireAt <= uint64(now.Unix()) {
-					expireAt = uint64(now.Add(time.Second).Unix())
-				}
+				expireAt = at
 			case "EXAT":
 				expireAt = uint64(num)
 			case "PXAT":
@@ -359,6 +353,28 @@ func (s *redisServer) execSet(w *bufio.Writer, args [][]byte) error {
 		return writeSimpleString(w, "OK")
 	}
 	return writeNil(w)
+}
+
+// relativeExpireAt turns a relative SET expiry (EX seconds or PX milliseconds, num > 0)
+// into the absolute unix second stored with the entry. The deadline is computed in
+// integer milliseconds, so a huge value cannot wrap around a time.Duration; ok is false
+// when the deadline does not fit. A deadline inside the current second is rounded up to
+// the next one, the store keeps expiry at second granularity.
+func relativeExpireAt(nowMs, num int64, seconds bool) (uint64, bool) {
+	if seconds {
+		if num > math.MaxInt64/1000 {
+			return 0, false
+		}
+		num *= 1000
+	}
+	if num > math.MaxInt64-nowMs {
+		return 0, false
+	}
+	at := uint64((nowMs + num) / 1000)
+	if nowSec := uint64(nowMs / 1000); at <= nowSec {
+		at = nowSec + 1
+	}
+	return at, true
 }
 
 func (s *redisServer) execDel(w *bufio.Writer, keys [][]byte) error {
